@@ -9,7 +9,7 @@
 set -u
 export GOFLAGS=-mod=mod GOPROXY=off GOSUMDB=off GOTOOLCHAIN=local
 P="$1"; I="$2"; shift 2; EXTRA="$*"
-SRC=/tmp/wt/$P-out
+SRC=${SEED_SRC:-/tmp/wt/$P-out}
 patch=$SRC/m$I.diff
 demo=$(ls $SRC/m${I}_demo_test.go $SRC/m${I}_demo.sh 2>/dev/null | head -1)
 [ -f "$patch" ] || { echo "no patch $patch"; exit 2; }
